@@ -132,8 +132,8 @@ Section C05_stream.
      before u with u's previous_parse_offset; u's previous_parse_offset becomes x's length.  Then the
      new sequence is accepted and the observation run_obs = (verdict, sequences gone through, picture
      numbers output) is the same -- PROVIDED the level's and the generic data-unit ORDERING patterns
-     admit the new parse code sequence (the automata are abstract here; whether a level's pattern
-     admits padding at that place is C19's subject).  Picture CONTENT is not in this model's
+     allow the new parse code sequence (the automata are abstract here; whether a level's pattern
+     allows padding at that place is C19's subject).  Picture CONTENT is not in this model's
      observation: `_partial`. *)
   Theorem C05_padding_and_aux_units_irrelevant_partial : forall u0 h0 a x u b,
     let us := u0 :: a ++ u :: b in
